@@ -2,8 +2,9 @@
    translated from /repo. ExtrOcamlBasic only: bool option list prod unit sumbool -> OCaml's. *)
 Require Import Extraction ExtrOcamlBasic.
 From Coq Require Import List ZArith.
-Require Import SD.ListOps SD.Ordered Gen.ConstsOrdered.
+Require Import SD.ListOps SD.Ordered SD.OrderedAlloc Gen.ConstsOrdered.
 Definition hirschberg_z (t s: list Z) := Ordered.hirschberg Z.eqb LEVENSHTEIN_CUTOFF DELETE_COST REPLACE_COST INSERT_COST t s 0%Z.
 Definition levenshtein_z (t s: list Z) := Ordered.levenshtein Z.eqb DELETE_COST REPLACE_COST INSERT_COST t s 0%Z.
 Definition apply_opt_z (l: list Z) (o: option (list (@Ordered.change Z))) := Ordered.apply_opt l o.
-Extraction "ordered_model.ml" hirschberg_z levenshtein_z apply_opt_z.
+Definition hir_mem_z (t s: list Z) := hir_mem Z.eqb LEVENSHTEIN_CUTOFF DELETE_COST REPLACE_COST INSERT_COST (S (length t)) t s 0 (length t) 0 (length s).
+Extraction "ordered_model.ml" hirschberg_z levenshtein_z apply_opt_z hir_mem_z.
